@@ -188,6 +188,16 @@ def gen_c08(rnd, n, thorough=False):
         lines += ["snap d/a.wsp", "clicopy " + opt, "disk d/a.wsp", "clidiff src=s:%s dest=d:a.wsp from=%s until=%s archive=%d" % (sname, frm, until, arch)]
         tags = {'layout': lname, 'dest': destkind, 'window': wk, 'archive': 'all' if arch == -1 else ('bad' if arch < 0 or arch >= k else 'one'), 'copynan': copynan}
         cases.append({'id': 'c08-%d' % c, 'lines': lines, 'tags': tags})
+        if c % 9 == 4:
+            # a destination the user may read but not write, differing from the source: nothing can be copied, so the
+            # copy reports an error (never success without the work done), and the file is as it was
+            rl = fill_ops(rnd, 's/a.wsp', layout, m, xff, density=1.0, inconsistent=False)
+            rl += ["create d/a.wsp %s m %d x %08x" % (fmt_layout(layout), m, xff), "sync d/a.wsp", "drop d/a.wsp", "snap d/a.wsp",
+                   "clicopy src=s:a.wsp dest=d:a.wsp from=0 until=0 archive=-1 copynan=%d m=%d x=%08x layout=%s textout=discard ro=d/a.wsp" % (rnd.pick([0, 1]), m, xff, lay_csv(layout)),
+                   "disk d/a.wsp"]
+            observe_all(rl, 'd/a.wsp', layout)
+            rl += ["clidiff src=s:a.wsp dest=d:a.wsp from=0 until=0 archive=-1"]
+            cases.append({'id': 'c08-%d-readonly' % c, 'lines': rl, 'tags': {'layout': lname, 'dest': 'unwritable', 'window': 'default', 'archive': 'all', 'copynan': 0}})
         if rnd.chance(0.15):
             # glob mode: every matched file goes to the same relative path under the destination base
             gl = []
@@ -632,6 +642,13 @@ def gen_c18(rnd, n, thorough=False):
                 lines.append("cliview src=s:%s from=%s until=%s archive=%d header=%d remote=%d" % (vname, frm, until, arch, rnd.pick([0, 1]), rnd.pick([0, 0, 1])))
             else:
                 lines.append("cliviewraw src=s:%s from=%s until=%s archive=%d header=%d sort=%d remote=%d" % (vname, frm, until, arch, rnd.pick([0, 1]), rnd.pick([0, 1]), rnd.pick([0, 0, 1])))
+        if c % 6 == 2:
+            # ONE command value executed twice, the file receiving a point in between (a clock second later): the
+            # second run shows what is stored then, up to its own clock
+            if rnd.chance(0.5):
+                lines.append("cliview src=s:%s from=0 until=0 archive=%d header=%d twice=1" % (vname, rnd.pick([-1, 0]), rnd.pick([0, 1])))
+            else:
+                lines.append("cliviewraw src=s:%s from=0 until=0 archive=%d header=%d sort=1 twice=1" % (vname, rnd.pick([-1, 0]), rnd.pick([0, 1])))
         if rnd.chance(0.25):
             lines.append("setmaxret s/%s %d" % (vname, rnd.pick([layout[-1][0] * layout[-1][1] * 2, 1, 7200, 2 ** 31 - 1])))
         a = rnd.randrange(k)
@@ -681,6 +698,12 @@ def gen_c20(rnd, n, thorough=False):
         if len(lines) == 2 and lines[-1].startswith('hdrof'):
             observe_all(lines, 'g/x.wsp', layout, until='@+3', now='@+3')
         cases.append({'id': 'c20-%d' % c, 'lines': lines, 'tags': {'levels': len(layout), 'fill': fill, 'max': mx}})
+    # a destination named through a linked directory and "..": the file is created where the operating system finds
+    # that name (next to the directory the link points to), not where the text of the name seems to point
+    layout = rnd.pick(lay)
+    ll = ["dirlink real/sub lnk", "cligenerate dest=lnk/../x.wsp m=2 x=3f000000 layout=%s max=10 fill=%d" % (lay_csv(layout), rnd.pick([0, 1])),
+          "hdrof real/x.wsp", "hdrof x.wsp", "cligenerate dest=lnk/y.wsp m=2 x=3f000000 layout=%s max=10 fill=1" % lay_csv(layout), "hdrof real/sub/y.wsp"]
+    cases.append({'id': 'c20-linkdest', 'lines': ll, 'tags': {'levels': len(layout), 'fill': 1, 'max': 10, 'dest': 'through_link'}})
     # the layout arrives as text: a retention whose seconds do not fit 32 bits is refused, whatever its wrapped value
     ll = []
     for rt in ['1s:49711d', '1s:137y', '2s:7102w', '1s:1m,2s:49711d', '1s:1193047h', '1s:71582789m', '1s:24855d', '1s:68y', '1s:69y', '1s:3550w']:
@@ -917,6 +940,13 @@ def gen_c12(rnd, n, thorough=False):
         ll.append("clidiff src=lnk:i1/*.wsp dest=lnk: from=0 until=0 archive=-1" + r)
         ll.append("cliview src=lnk:i2/a.wsp from=0 until=0 archive=-1 header=1" + r)
     cases.append({'id': 'c12-linkbase', 'lines': ll, 'tags': {'layout': 'link_base'}})
+    # a file the user may read but not write: the directory and a server on it (run by that user) give the same
+    # answer -- whatever it is
+    ll = []
+    for nm in ('s/a.wsp', 's/i1/b.wsp'):
+        ll += fill_ops(rnd, nm, CLI_LAYOUTS['two_1s'], 2, 0x3f000000, density=0.6, inconsistent=False)
+    ll += ["cliroread src=s:a.wsp from=0 until=0 archive=-1", "cliroread src=s:i1/b.wsp from=0 until=0 archive=%d" % rnd.pick([0, 1, 5])]
+    cases.append({'id': 'c12-readonly', 'lines': ll, 'tags': {'layout': 'unwritable_file'}})
     # a glob that matches a round number of names (1000; thorough: other page-like counts): the list a server
     # sends is the list the directory gives, however many names it has
     for cnt in ([1000] if not thorough else [1000, 500, 512, 1024, 2000, 100, 256]):
@@ -1081,6 +1111,22 @@ def gen_c16(rnd, n, thorough=False):
         cases.append({'id': 'c16-%d' % c, 'lines': lines, 'tags': {'layout': lname, 'src': srckind, 'dest': destkind, 'sub': hist}})
         if c == 1:
             cases.append(many_files_case(rnd, 'c16-%d-many' % c, ['sum', 'sumcopy', 'sumdiff']))     # (sum-diff after sum-copy: with a missing destination AND an unreadable source, which of the two concurrent failures is reported is not determined)
+    # destinations the user may read but not write, differing from what would be copied: no run reports success
+    # without the work done -- copy and sum-copy report the error, the files are as they were
+    for j in range(2):
+        lname = rnd.pick(['two_1s', 'three_2s', 'single'])
+        layout = CLI_LAYOUTS[lname]
+        rl = fill_ops(rnd, 's/i1/a.wsp', layout, 2, 0x3f000000, density=1.0, inconsistent=False)
+        rl += fill_ops(rnd, 's/i1/b.wsp', layout, 2, 0x3f000000, density=1.0, inconsistent=False)
+        for dn in ('d/a.wsp', 'e/i1/sum.wsp'):
+            rl += ["create %s %s m 2 x 3f000000" % (dn, fmt_layout(layout)), "sync %s" % dn, "drop %s" % dn, "snap %s" % dn]
+        rl += ["clicopy src=s:i1/a.wsp dest=d:a.wsp from=0 until=0 archive=%d copynan=0 m=2 x=3f000000 layout=%s textout=discard ro=d/a.wsp" % (rnd.pick([-1, 0]), lay_csv(layout)),
+               "disk d/a.wsp",
+               "clisumcopy base=s item=i1 src=*.wsp destbase=e dest=sum.wsp from=0 until=0 archive=%d m=2 x=3f000000 layout=%s textout=discard ro=e/i1/sum.wsp" % (rnd.pick([-1, 0]), lay_csv(layout)),
+               "disk e/i1/sum.wsp"]
+        observe_all(rl, 'd/a.wsp', layout)
+        observe_all(rl, 'e/i1/sum.wsp', layout)
+        cases.append({'id': 'c16-readonly-%d' % j, 'lines': rl, 'tags': {'layout': lname, 'src': 'ok', 'dest': 'unwritable', 'sub': {'copy': 1, 'sumcopy': 1}}})
     # copy over three archives where the middle one needs no write once the finest is written while the
     # coarsest still differs: success means all of them were brought in line
     for j in range(2):
@@ -1161,6 +1207,19 @@ def gen_c05_cli(rnd, n, thorough=False):
                 m, xff, lay_csv(layout)), "disk e/i1/sum.wsp"]
             observe_all(lines, 'e/i1/sum.wsp', other)
         cases.append({'id': 'c05-cli-%d' % c, 'lines': lines, 'tags': {'layout': 'big', 'ops': {'cli_refused_write': 1}}})
+        if c % 2 == 0:
+            # an existing destination that cannot be opened (what a Create without Sync leaves behind: zeros) and a
+            # source that does not exist: the command fails -- which failure it reports is not compared --, and the
+            # destination is as it was
+            l2 = CLI_LAYOUTS[rnd.pick(['two_1s', 'three_2s', 'big'])]
+            bl = ["create d/a.wsp %s m %d x %08x" % (fmt_layout(l2), m, xff), "drop d/a.wsp", "snap d/a.wsp"]
+            if rnd.chance(0.5):
+                bl += ["clicopy src=s:none.wsp dest=d:a.wsp from=0 until=0 archive=-1 copynan=0 m=%d x=%08x layout=%s nostatus=1" % (m, xff, lay_csv(rnd.pick([l2, CLI_LAYOUTS['single']])))]
+            else:
+                bl = fill_ops(rnd, 's/i1/a.wsp', [(s_, nn + 1) for s_, nn in l2], m, xff, density=0.5, inconsistent=False) + bl
+                bl += ["clicopy src=s:i1/a.wsp dest=d:a.wsp from=0 until=0 archive=-1 copynan=0 m=%d x=%08x layout=%s nostatus=1" % (m, xff, lay_csv(l2))]
+            bl += ["disk d/a.wsp"]
+            cases.append({'id': 'c05-cli-%d-blank' % c, 'lines': bl, 'tags': {'layout': 'blank_dest', 'ops': {'cli_failed_write_blank_dest': 1}}})
     return cases
 
 
@@ -1272,7 +1331,7 @@ def procify(gen, share=0.12):
     together with a start is refused by every Parse)."""
     heads = ('clicopy ', 'clidiff ', 'clisum ', 'clisumcopy ', 'clisumdiff ', 'cliview ', 'cliviewraw ', 'cligenerate ')
     def ok(line):
-        if not line.startswith(heads) or any(t in line for t in (' live=', ' hold=', ' intruder=', ' again=', ' proc=', ' deep=', 'remotedest=1')):
+        if not line.startswith(heads) or any(t in line for t in (' live=', ' hold=', ' intruder=', ' again=', ' proc=', ' deep=', 'remotedest=1', ' twice=')):
             return False
         kv = dict(t.split('=', 1) for t in line.split()[1:] if '=' in t)
         frm, until = kv.get('from', '0'), kv.get('until', '0')
